@@ -60,7 +60,7 @@ func specs(list []model.Entry) []fixture.ContentSpec {
 	var out []fixture.ContentSpec
 	for _, e := range list {
 		out = append(out, fixture.ContentSpec{Src: e.Src, Dst: e.Dst, Type: e.Type, Packager: e.Packager,
-			Owner: e.Owner, Group: e.Group, Mode: e.Mode, MTime: e.MTime, HasInfo: e.HasInfo})
+			Owner: e.Owner, Group: e.Group, Mode: e.Mode, MTime: e.MTime, HasInfo: e.HasInfo, Expand: e.Expand})
 	}
 	return out
 }
